@@ -8,8 +8,8 @@ import (
 
 // RoundRobinStrategy implements a round-robin load balancing strategy
 type RoundRobinStrategy struct {
+	current  uint64 // first: 64-bit atomic operations need 64-bit alignment, also on 32-bit platforms
 	backends []*Backend
-	current  uint64
 	mutex    sync.RWMutex
 }
 
